@@ -128,6 +128,7 @@ func (s *Syncer) SendOnce(ctx context.Context, env *lmdb.Env) (txnID header.TxnI
 		return 0, err
 	}
 	tDumped := time.Now()
+	verifYield("SendOnce.afterTxn")
 
 	// If no actual changes were made, LMDB will not record the transaction
 	// and reuse the ID the next time, so we need to adjust the txnID we return.
